@@ -354,6 +354,7 @@ func (s *Session) Activate() {
 	// written only when it actually changes: in the -race build there is one
 	// session per run, so the package variable is written before the session's
 	// goroutines exist and never again (no scheduler -> task edge is needed).
+	simrt.ActivateGlobals(s)
 	if activeSession != s {
 		server.VerifSwapTokenCache(s.tokenCache)
 		activeSession = s
